@@ -1,0 +1,58 @@
+//go:build verif
+
+package buffer
+
+// Contracts checked by /verif (contract-based deductive verification).
+// This file is comment-only; it is compiled only with -tags=verif.
+//
+// C31 (unbounded queue under the callback serializer). Each method is one
+// critical section under b.mu (`opt atomic mu`: checked that all accesses are
+// inside it). The representation invariant is declared as the invariant of the
+// mutex: assumed when b.mu is taken, re-established when it is released, and
+// established by NewUnbounded:
+//
+//   b.c has capacity 1; the channel is closed exactly when b.closed;
+//   closed implies closing and an empty backlog.
+//
+// Values travel backlog head -> channel; a value is put on the channel directly
+// only when the backlog is empty, so the channel plus backlog is a FIFO.
+
+//@ monitor Unbounded.mu protects closed, closing, backlog
+//@   prop C31
+//@   invariant self.c != nil && cap(self.c) == 1 && isclosed(self.c) == self.closed && implies(self.closed, self.closing && len(self.backlog) == 0)
+
+// NewUnbounded establishes the invariant.
+//@ func NewUnbounded
+//@   prop C31
+//@   ensures result != nil && result.c != nil && cap(result.c) == 1 && len(result.c) == 0 && !isclosed(result.c) && !result.closed && !result.closing && len(result.backlog) == 0
+
+// Put: refused (with the buffer untouched) exactly when closing has begun;
+// otherwise the value goes straight to the channel only if nothing is queued
+// before it, else to the END of the backlog.
+//@ func (*Unbounded).Put
+//@   prop C31
+//@   opt atomic mu
+//@   assert at return 1 old(b.closing) && result0 == errBufferClosed && len(b.backlog) == old(len(b.backlog)) && len(b.c) == old(len(b.c))
+//@   assert at return 2 !old(b.closing) && old(len(b.backlog)) == 0 && result0 == nil && len(b.backlog) == 0 && old(len(b.c)) == 0 && !isclosed(b.c)
+//@   assert at call append#1 !old(b.closing) && sameslice(arg0, b.backlog) && (len(b.backlog) > 0 || len(b.c) == 1)
+//@   assert at return 3 result0 == nil && len(b.backlog) == old(len(b.backlog)) + 1
+
+// Load: moves the EARLIEST queued value to the channel when there is room,
+// removing exactly that one; reports end-of-stream (closes the channel) only
+// when closing has begun and nothing is queued, and only once.
+//@ func (*Unbounded).Load
+//@   prop C31
+//@   opt atomic mu
+//@   ensures len(b.backlog) == old(len(b.backlog)) || len(b.backlog) == old(len(b.backlog)) - 1 && old(len(b.c)) == 0
+//@   ensures implies(old(len(b.backlog)) > 0 && old(len(b.c)) == 0, len(b.backlog) == old(len(b.backlog)) - 1)
+//@   ensures implies(old(len(b.backlog)) > 0, !isclosed(b.c))
+//@   assert at call close#1 old(len(b.backlog)) == 0 && b.closing && !old(b.closed) && !isclosed(b.c) && arg0 == b.c
+
+// Close: starts closing (idempotent); the channel is closed right away only
+// when nothing is queued, otherwise the last Load does it.
+//@ func (*Unbounded).Close
+//@   prop C31
+//@   opt atomic mu
+//@   ensures b.closing && len(b.backlog) == old(len(b.backlog))
+//@   ensures implies(old(b.closing), b.closed == old(b.closed))
+//@   assert at call close#1 !old(b.closing) && len(b.backlog) == 0 && !isclosed(b.c) && arg0 == b.c
